@@ -340,6 +340,16 @@ V = [
     ("C16", B, "range_x via json on one side", RIO,
      '                elif key == "range_x":\n                    val = str(val)\n',
      '                elif key == "range_x":\n                    val = json.dumps(val)\n', "C16-R1"),
+    ("C16", B, "raw data without path not skipped", RIO,
+     '                if "path" not in dset.attrs:\n', '                if False:\n',
+     "C16-R4"),
+    ("C16", B, "incomplete group reused", RIO,
+     '        if idd in ana and "user rate" not in ana[idd].attrs:\n',
+     '        if False:\n', "C16-R4"),
+    ("C16", B, "complete groups deleted too", RIO,
+     '        if idd in ana and "user rate" not in ana[idd].attrs:\n',
+     '        if idd in ana and "user time" not in ana[idd].attrs:\n',
+     "C16-R"),
     ("C16", B, "overwrite fit attrs of existing entry", RIO,
      "            out = ana[idd]\n        else:",
      "            out = ana[idd]\n            out.attrs[\"data enum\"] = indent.enum\n        else:", "C16-R2"),
@@ -358,6 +368,10 @@ V = [
     ("C17", N, "np.nanmax normaliser", FEA, "            norm = xin.size * np.max(yin)\n",
      "            norm = np.max(yin) * xin.size\n", ""),
     # ---- C18
+    ("C18", B, "memoised registry look-up", "src/nanite/model/__init__.py",
+     "def get_parm_name(model_key, parm_key):",
+     "import functools\n\n\n@functools.lru_cache(maxsize=None)\n"
+     "def get_parm_name(model_key, parm_key):", "C18-R1"),
     ("C18", B, "direct registry write", COR,
      "    def __str__(self):\n        return f\"NaniteFitModel '{self.model_key}'\"",
      "    def __str__(self):\n        from .logic import models_available\n        models_available[self.model_key] = self\n"
